@@ -187,6 +187,54 @@ def step(w, op, prop, strict_others=False):
                 t._data[col] = as_faulty(t._data[col])
         _after_mutation(w, prop, tid, where)
         return "setcol_index" if col == m.index else ("setcol" if existing else "newcol")
+    if kind == "vec_cols":
+        # a table of its own (it does not join the population) with one vector per row in a float column (shape (n, k)) and
+        # in an object column: repetition, sum, concatenation, copy and row selection must give tables whose columns all
+        # have len(table) rows, row j of the result being the row of the source it stands for; the source stays as it was
+        _, n, num, k, names = op
+        idx = np.array(list(names[:n]), dtype=object)
+        vec = np.arange(float(n * k)).reshape(n, k)
+        pair = np.empty((n, 2), dtype=object)
+        for i in range(n):
+            pair[i, 0], pair[i, 1] = i, "p%d" % i
+        data = {"name": idx, "s": 1.5 * np.arange(n), "vec": vec.copy(), "pair": pair.copy(), "title": "vec"}
+        src, exc = call(lambda: w.xd.Table(data, col_names=["name", "s", "vec", "pair"]))
+        where = "a table of %d rows with a float column of shape (%d, %d) and an object column of shape (%d, 2)" % (n, n, k, n)
+        if exc is not None:
+            raise TViolation(prop + ".derive_raises", "%s: the constructor raised %s: %s" % (where, type(exc).__name__, exc))
+
+        def rect(t, what, rows):
+            # rows: for every row of the result, the row of the source it repeats
+            cols = list(t._col_names)
+            if "name" not in cols or any(c not in t._data for c in cols):
+                raise TViolation(prop + ".listed_column_missing", "%s: %s lists %s, holds %s" % (where, what, cols, sorted(t._data)))
+            if len(t) != len(rows):
+                raise TViolation(prop + ".length", "%s: %s has %d rows, expected %d" % (where, what, len(t), len(rows)))
+            for c in cols:
+                v = t._data[c]
+                if len(v) != len(rows):
+                    raise TViolation(prop + ".ragged", "%s: %s: column %r has %d rows (shape %s), len(table) is %d"
+                                     % (where, what, c, len(v), getattr(v, "shape", None), len(t)))
+                for j, i in enumerate(rows):
+                    if not np.all(np.asarray(v[j] == data[c][i])):
+                        raise TViolation(prop + ".cell", "%s: %s: row %d of column %r is %r, row %d of the source is %r"
+                                         % (where, what, j, c, v[j], i, data[c][i]))
+            if (".rows[" in what or ".cols[" in what or what.startswith("the source")) and t._data.get("title") != "vec":
+                raise TViolation(prop + ".scalars", "%s: %s lost the scalar entry" % (where, what))
+
+        base = list(range(n))
+        for what, fn, rows in [("t * %d" % num, lambda: src * num, base * num), ("t + t", lambda: src + src, base * 2),
+                               ("Table.concatenate([t, t])", lambda: w.xd.Table.concatenate([src, src]), base * 2),
+                               ("t._copy()", lambda: src._copy(), base), ("t.rows[::-1]", lambda: src.rows[::-1], base[::-1]),
+                               ("(t * %d).rows[%d:]" % (num, n), lambda: (src * num).rows[n:], base * (num - 1)),
+                               ("t.cols['s', 'vec']", lambda: src.cols["s", "vec"], base)]:
+            der, exc = call(fn)
+            if exc is not None:
+                raise TViolation(prop + ".derive_raises", "%s: %s raised %s: %s" % (where, what, type(exc).__name__, exc))
+            rect(der, what, rows)
+            rect(src, "the source after " + what, base)
+        w.count("vector_column_derivations", 7)
+        return "vec_cols"
     if kind == "newcol_list":
         # a new column handed over as a plain python list with one entry per row (numbers, strings, or one list per row of
         # different lengths): whether the assignment is accepted or refused, every listed column is held afterwards and the
